@@ -1,24 +1,11 @@
 (* Entry points of the C05 / C11 correspondence cases (evaluated by vm_compute in the generated case files). *)
 From Coq Require Import List NArith ZArith Bool String.
-From SudachiVerif Require Import Model.Codec Model.CodecConn Model.CodecResolve.
+From SudachiVerif Require Import Model.Codec Model.CodecConn Model.CodecResolve Model.CodecCsv.
 From SudachiVerif Require Generated.FieldOrder.
 Import ListNotations.
 Open Scope N_scope.
 
 (* ------------------------------------------------------------------ other sections of the file *)
-(* LexiconReader::write_pos_table: u16 count of new POS, then 6 strings each *)
-Fixpoint concat_opt (l : list (option bytes)) : option bytes :=
-  match l with
-  | [] => Some []
-  | Some a :: t => match concat_opt t with Some b => Some (a ++ b) | None => None end
-  | None :: _ => None
-  end.
-Definition pos_table_bytes (rows : list (list text)) : option bytes :=
-  match concat_opt (map write_string (List.concat rows)) with
-  | Some b => Some (le16 (N.of_nat (List.length rows)) ++ b)
-  | None => None
-  end.
-
 (* Header::write_to: version u64, create_time u64, description padded with zeros to 256 bytes *)
 Definition le64 (n : N) : bytes := le32 (n mod 4294967296) ++ le32 (n / 4294967296).
 Definition header_bytes (version time : N) (descr : bytes) : bytes :=
@@ -133,6 +120,55 @@ Definition check_c05_model_only_rows
   match resolve_rows user rows sys with
   | Some es => check_c05_model_only offset es impl_words dict_id nsys pos_offset rbs
   | None => false
+  end.
+
+(* the same from the CSV fields as they come out of the csv crate (escapes, number and id literals, `*`, lists,
+   inline references as text): Model/CodecCsv.v parses the records and numbers the POS, the Resolve model resolves,
+   the codec writes.  For a user dictionary `sys_rows` are the fields of the system lexicon it is compiled against
+   (its POS are preloaded, its entries are what BinDictResolver sees). *)
+Definition parse_stack (user : bool) (sys_rows rows : list (list text)) : res (list posrow * list posrow * list entry * list rrow) :=
+  do sys <- (if user then
+               do r <- parse_records [] sys_rows;
+               match resolve_rows false (snd r) [] with
+               | Some es => ROk (fst r, es)
+               | None => RErr ESplitFormat
+               end
+             else ROk ([], []));
+  do r <- parse_records (fst sys) rows;
+  ROk (fst sys, skipn (List.length (fst sys)) (fst r), snd sys, snd r).
+
+Definition check_c05_csv
+  (version time : N) (descr impl_header : bytes) (impl_pos : bytes)
+  (nl nr : N) (lines : list (N * N * Z)) (impl_conn : bytes) (conn_reads : list (N * N * Z))
+  (offset : N) (user : bool) (sys_rows rows : list (list text)) (impl_words : bytes)
+  (dict_id nsys pos_offset : N) (dfs : list text) (rbs : list readback) : bool :=
+  match parse_stack user sys_rows rows with
+  | ROk (sys_pos, new_pos, sys_es, rrows) =>
+      (if user then N.of_nat (List.length sys_pos) =? nsys else true)
+      && check_c05_rows version time descr impl_header new_pos impl_pos nl nr lines impl_conn conn_reads
+                        offset user rrows sys_es impl_words dict_id nsys pos_offset dfs rbs
+  | RErr _ => false
+  end.
+Definition check_c05_model_only_csv
+  (offset : N) (sys_rows rows : list (list text)) (impl_words : bytes)
+  (dict_id nsys pos_offset : N) (rbs : list readback) : bool :=
+  match parse_stack true sys_rows rows with
+  | ROk (_, _, sys_es, rrows) => check_c05_model_only_rows offset true rrows sys_es impl_words dict_id nsys pos_offset rbs
+  | RErr _ => false
+  end.
+
+(* a lexicon the compiler must refuse: the model refuses it with the same kind of error (and the same digits for an
+   escape that names no scalar value) *)
+Definition err_code (e : err) : N * text :=
+  match e with
+  | ESize => (1, []) | EChar d => (2, d) | EI16 => (3, []) | EU32 => (4, []) | EWordId => (5, []) | EMode => (6, [])
+  | ESplitFormat => (7, []) | ENoField _ => (8, []) | EPosLimit => (9, []) | EModeASplits => (10, [])
+  | EEmptySurface => (11, []) | ENulSurface => (12, [])
+  end.
+Definition check_c05_reject (rows : list (list text)) (code : N) (digits : text) : bool :=
+  match parse_records [] rows with
+  | ROk _ => false
+  | RErr e => (fst (err_code e) =? code) && nlist_eqb (snd (err_code e)) digits
   end.
 
 (* ------------------------------------------------------------------ C11 *)
